@@ -152,6 +152,14 @@ def run_network(spec, walk, ctx, case):
                 sink = edzed.Counter('sinkc', initdef=0)
                 created[s] = edzed.Input(s, initdef=spec['init'][s], on_output=edzed.Event(
                     sink, edzed.EventCond('inc', 'nosuch'), efilter=edzed.not_from_undef))
+            elif spec.get('gate_filter', {}).get('src') == s:
+                # the source's own output event passes an IfOutput filter controlled by a
+                # combinational block that depends on this very source and feeds other blocks:
+                # the filter reads the block's output while the change is still on its way
+                created['gsink'] = edzed.Input('gsink', initdef=0)
+                created[s] = edzed.Input(s, initdef=spec['init'][s], on_output=edzed.Event(
+                    'gsink', 'put', efilter=edzed.IfOutput(spec['gate_filter']['ctrl'])))
+                ctx.count('ifoutput_filters_controlled_by_cblocks')
             else:
                 created[s] = edzed.Input(s, initdef=spec['init'][s])
         for f in spec['fed']:
@@ -474,10 +482,10 @@ def gen(ctx):
             spec = big_chain(rng)
             kind = 'big_chain'
             ctx.count('long_single_path_chains')
-        elif r < 0.12:
+        elif r < 0.22:
             spec = reconv(rng)
             kind = 'reconv'
-        elif r < 0.45:
+        elif r < 0.5:
             spec = random_network(rng)
             kind = 'random'
         elif r < 0.65:
@@ -523,6 +531,12 @@ def gen(ctx):
             walk.append({s: not cur[s]})
         if kind in ('random', 'ring') and rng.random() < 0.25:
             spec['via_run'] = True
+        if rng.random() < 0.3 and not spec.get('relay') and not spec.get('faulty_src'):
+            cands = [(s, c['name']) for c in spec['cblocks'] for s in spec['sources']
+                     if s in c['ins'] and any(c['name'] in d['ins'] for d in spec['cblocks'])]
+            if cands:
+                src, ctrl = rng.choice(cands)
+                spec['gate_filter'] = {'src': src, 'ctrl': ctrl}
         yield {'kind': kind, 'spec': spec, 'walk': walk}
 
 
